@@ -1,5 +1,6 @@
 import Blue.Model.Stall
 import Blue.Model.Selector
+import Blue.Model.KvsWake
 import Blue.Driver.Util
 /-! Driver verbs for the stall / wake-up protocol and the selector (instance `stall`, property C20).
 
@@ -30,7 +31,16 @@ import Blue.Driver.Util
     `sel` / the D-15 trigger on it:
       `stall=<b> next=<b> l0=<n> l0b=<n> l1h=<n> l1hb=<n> full=<b> sel=<b> over=<b>`,
     or `sel-unsound` when `sel` holds and the selector model offers nothing, `hull-not-choosable`
-    when `sel` holds and the hypothesis of `Blue.Selector.sel_sound_partial` does not. -/
+    when `sel` holds and the hypothesis of `Blue.Selector.sel_sound_partial` does not.
+
+    `stall wake :: <tok>*` — the wait list of `KeyValueStore::write` in a recorded run, as a run of
+    `Blue.KvsWake.step` (threads are numbered in link order):
+      `K`      a writer (or the flush thread) linked itself
+      `A<i>`   thread `i` ran its last critical section: it left as head, or went to sleep
+      `D<i>`   thread `i`, a write that failed, dropped its guard out of turn (the store as found)
+      `S<i>`   thread `i` woke unprompted
+    Every token must be enabled.  Answer: `ok head=<ok|asleep@pos> end=q:<n>,asleep:<n>` — `pos` the
+    first token after which the head of the list was asleep — or `bad:not-enabled@<pos>`. -/
 namespace Blue.Driver.C20
 open Blue.Driver Blue.Stall
 
@@ -167,7 +177,33 @@ def handleSel (nlevels : Nat) (o : Opts) (files : List (Nat × File)) : String :
     else
       s!"stall={b01 (shouldStall o t)} next={b01 next} l0={m.l0} l0b={m.l0b} l1h={m.l1h} l1hb={m.l1hb} full={b01 m.full} sel={b01 (sel o m)} over={b01 (overLimit o m)}"
 
+def wakeTok (t : String) : Option Blue.KvsWake.Ev :=
+  if t = "K" then some .link
+  else if t.startsWith "A" then (optNat (t.drop 1).toString).map .arrive
+  else if t.startsWith "D" then (optNat (t.drop 1).toString).map .drop
+  else if t.startsWith "S" then (optNat (t.drop 1).toString).map .spur
+  else none
+
+def runWake : Blue.KvsWake.St → Nat → Option Nat → List String → String
+  | s, _, bad, [] =>
+    let head := match bad with
+      | none => "ok"
+      | some p => s!"asleep@{p}"
+    s!"ok head={head} end=q:{s.queue.length},asleep:{Blue.KvsWake.sleepers s}"
+  | s, pos, bad, t :: ts =>
+    match wakeTok t with
+    | none => "bad-op"
+    | some ev =>
+      match Blue.KvsWake.step s ev with
+      | none => s!"bad:not-enabled@{pos}"
+      | some s' =>
+        let bad' := match bad with
+          | some p => some p
+          | none => if Blue.KvsWake.headAsleep s' then some pos else none
+        runWake s' (pos + 1) bad' ts
+
 def handle : List String → String
+  | "wake" :: "::" :: toks => runWake Blue.KvsWake.init 0 none toks
   | "run" :: a :: b :: c :: d :: e :: f :: "::" :: toks =>
     match allSome ([a, b, c, d, e, f].map optNat) with
     | some [stallF, stallB, ni, nc, l0, l0b] => handleRun stallF stallB ni nc l0 l0b toks
